@@ -205,6 +205,7 @@ package plugins
 //@   ensures identity_labels: !old(g.bufferExceeded) && !old(g.ResponseWriter.committed) ==>
 //@             g.ResponseWriter.ceAtCommit == old(hdrOf(g.ResponseWriter, "Content-Encoding")) && g.ResponseWriter.clAtCommit == old(hdrOf(g.ResponseWriter, "Content-Length"))
 //@   ensures status: !g.ResponseWriter.hijacked && !old(g.bufferExceeded) ==> g.ResponseWriter.status == (old(g.wroteHeader) ? old(g.statusCode) : 200)
+//@   ensures decided_status_kept: g.wroteHeader && (old(g.wroteHeader) ==> g.statusCode == old(g.statusCode))
 //@   modifies g.bufferExceeded, g.statusCode, g.wroteHeader, g.headerSent, g.buf.n, http.ResponseWriter.committed, http.ResponseWriter.status, http.ResponseWriter.ceAtCommit,
 //@            http.ResponseWriter.clAtCommit, http.ResponseWriter.bodyLen
 
@@ -215,6 +216,9 @@ package plugins
 //@   ensures buffered_until_cap: !old(g.bufferExceeded) && old(g.buf.n) + len(b) <= MaxCompressionBufferSize ==> !g.bufferExceeded && g.buf.n == old(g.buf.n) + len(b)
 //@             && g.ResponseWriter.committed == old(g.ResponseWriter.committed) && result0 == len(b) && result1 == nil
 //@   ensures over_cap_streams_identity: !old(g.bufferExceeded) && old(g.buf.n) + len(b) > MaxCompressionBufferSize ==> g.bufferExceeded
+// net/http: the first Write decides an implicit 200; a WriteHeader after it is ignored (explicit vs implicit
+// WriteHeader must give the client the same status whether or not it listed gzip)
+//@   ensures a_write_decides_the_status: g.wroteHeader && (!old(g.wroteHeader) ==> g.statusCode == 200) && (old(g.wroteHeader) ==> g.statusCode == old(g.statusCode))
 //@   modifies g.bufferExceeded, g.statusCode, g.wroteHeader, g.headerSent, g.buf.n, http.ResponseWriter.committed, http.ResponseWriter.status, http.ResponseWriter.ceAtCommit,
 //@            http.ResponseWriter.clAtCommit, http.ResponseWriter.bodyLen
 
